@@ -150,6 +150,22 @@ fn sp_case<const N: usize>(ctx: &mut Ctx, idx: usize) {
             let _ = sp_verify_real::<N>(ctx, kp.public_key(), &kpd.pk, &proof, &pd0, &c0, Some(false), "identity-blinded-signature");
         }
     }
+    // the builder's first draw (the blinding factor) solved against the secret key: the shown sigma2' is the identity /
+    // equals sigma1' - still an accepting proof, and still rejecting after any tampering
+    {
+        let e = kpd.x + kpd.ys.iter().zip(ms.iter()).map(|(y, m)| y * m).fold(Scalar::zero(), |a, b| a + b);
+        for (what, bf) in [("sigma2-identity", -e), ("sigma2-equals-sigma1", Scalar::one() - e)] {
+            ctx.forced_next = vec![bf];
+            if let Some((proof, pds, _w, cs, _r)) = sp_honest::<N>(ctx, kp.public_key(), &kpd.pk, &ms, &sig, &[None; N], ChalMode::Derived, None) {
+                ctx.count(&format!("solved-blinding-factor:{}", what));
+                let _ = sp_verify_real::<N>(ctx, kp.public_key(), &kpd.pk, &proof, &pds, &cs, Some(true), &format!("honest-solved-bf-{}", what));
+                let mut sp = pds.clone();
+                sp.s2 = pds.s2 + Scalar::one();
+                let _ = sp_verify_check::<N>(ctx, kp.public_key(), &kpd.pk, &sp, &cs, Some(false), "tampered-sigma2");
+            }
+            ctx.forced_next.clear();
+        }
+    }
     // a proof for a signature on a different message than the one committed to
     let mut ms2 = ms.clone();
     let j = ctx.prng.gen_range(0..N);
